@@ -586,7 +586,7 @@ func genVarCase(r *RNG, id string, o varOpts) *Case {
 			c.Tag("shared-start")
 		}
 	}
-	if o.sameName && r.Chance(1, 6) && len(genes) > 0 && genes[0].strand > 0 {
+	if o.sameName && r.Chance(1, 6) && len(genes) > 0 && genes[0].strand > 0 && len(genes[0].segs) == 1 && genes[0].codonStart == 1 {
 		// g, h, g: two coding sequences of one gene (as ORF1ab has in the SARS-CoV-2 record) with another feature listed
 		// between them, sharing their first codons: the same aa record is generated twice, not next to each other
 		g := genes[0]
